@@ -27,7 +27,33 @@ NoWholeGlue(l) == \A i \in 1..(Len(l) - 1) : ~(l[i] \in Whole /\ l[i + 1] \in Wh
 ClassWhole == Whole \cup {"cA", "cN"}
 Prunable(l) == \E i \in 1..(Len(l) - 1) : l[i] \in ClassWhole /\ l[i + 1] \in ClassWhole
 GNext == Len(line) < MaxLen /\ \E t \in Alphabet : ~Prunable(Append(line, t)) /\ line' = Append(line, t)
-GSpec == Init /\ [][GNext]_line
+
+(* The long-line family: an address followed by k names, k around the sizes   *)
+(* of small fixed buffers and far beyond, every name a field of its own,     *)
+(* optionally one bad name at position b (first, around the 8/9 boundary,    *)
+(* second to last, last), four separator layouts (single space, single tab,  *)
+(* runs of two, mixed runs with leading / trailing separators) and an        *)
+(* optional trailing comment.  These lines are extra initial states without  *)
+(* successors, emitted like every other line.                                *)
+CONSTANT LongCounts      \* set of name counts, {} = no long lines
+
+SepOf(layout, i) == CASE layout = 1 -> <<"SP">>
+                      [] layout = 2 -> <<"TAB">>
+                      [] layout = 3 -> <<"SP", "SP">>
+                      [] OTHER      -> IF i % 3 = 0 THEN <<"TAB", "SP", "TAB">> ELSE IF i % 3 = 1 THEN <<"SP">> ELSE <<"SP", "TAB">>
+NameTok(i, b) == IF i = b THEN "Nbad" ELSE IF i % 5 = 3 THEN "Nidn" ELSE "N"
+RECURSIVE LongNames(_, _, _, _)
+LongNames(i, k, b, layout) == IF i > k THEN <<>>
+                              ELSE SepOf(layout, i) \o <<NameTok(i, b)>> \o LongNames(i + 1, k, b, layout)
+LongLine(k, b, layout, cmt) ==
+    (IF layout = 4 THEN <<"TAB">> ELSE <<>>) \o <<IF k % 3 = 0 THEN "A6" ELSE IF k % 3 = 1 THEN "A4" ELSE "A6z">>
+    \o LongNames(1, k, b, layout)
+    \o (IF layout = 4 THEN <<"SP", "SP">> ELSE <<>>) \o (IF cmt THEN <<"HASH", "CMT">> ELSE <<>>)
+BadAt(k) == {0, 1, 8, 9, 10, k - 1, k} \cap (0..k)
+LongLinesFor == UNION {{LongLine(k, b, layout, cmt) : b \in BadAt(k), layout \in 1..4, cmt \in BOOLEAN} : k \in LongCounts}
+
+GInit == line \in ({<<>>} \cup LongLinesFor)
+GSpec == GInit /\ [][GNext]_line
 
 Out(l) == LET p == Parse(l) IN [l |-> l, k |-> p.kind, f |-> p.fields, n |-> p.n]
 Emit == LET l == Refine(line)
